@@ -35,8 +35,47 @@ abbrev Cfg (n : Nat) := Fin n → Bool
 /-- `to_pm1(x)`: `x.mul(2.0).sub(1.0)` (observables/utils.py:16-24) -/
 def toPm1 (x : α) : α := x * two - 1
 
+/-- `to_01(x)`: `x.add(1.0).div(2.0)` (observables/utils.py:26-33) -/
+def to01 (x : α) : α := (x + 1) / two
+
 /-- spin value of a bit in the library's convention `0 ↦ −1, 1 ↦ +1`: `to_pm1` of the 0/1 entry -/
 def spin (b : Bool) : α := toPm1 (bit b)
+
+/-! ### the identity strings the built-in observables give themselves (`self.name = …; self.symbol = …` in
+pauli.py:46-47, 96-97, 149-150, entanglement.py:54-55, interactions.py:37-40). Names are the keys under which `System`
+and `ObservableEvaluator` report an observable. -/
+
+/-- `"{}".format(flag)` for the object handed over as a flag: `format(x, "")` of a `bool` / `numpy.bool_` is
+`True` / `False`, of an `int` its decimal; a 0-d numpy array and a 0-d torch tensor format as their ITEM
+(`ndarray.__format__`, `Tensor.__format__`), not as `array(True)` / `tensor(True)`. -/
+def PyFlag.pyFormat : PyFlag → String
+  | .pyBool b => if b then "True" else "False"
+  | .pyInt i => toString i
+  | .npBool b => if b then "True" else "False"
+  | .npArr0 b => if b then "True" else "False"
+  | .tensor0 b => if b then "True" else "False"
+
+/-- `"{}".format(c)` / `f"{c}"` for the interaction distance: the decimal numeral for a Python int, a numpy integer, a
+0-d numpy array and a 0-d torch tensor alike (the latter two format as their item) -/
+def distStr (c : Nat) : String := toString c
+
+/-- the built-in observable classes with the constructor arguments that enter their names -/
+inductive Builtin where
+  | sigmaX | sigmaY | sigmaZ | swap
+  | neighbour (periodic : PyFlag) (c : Nat)
+
+/-- `(class name, name, symbol)` after `__init__`: note that `absolute` (Pauli) and `A` (SWAP) do NOT enter the name —
+two such observables given to one `System` collide (known finding F19) — while `periodic_bcs` and `c` do, formatted
+from the objects AS PASSED (`periodic_bcs=1` reads `1`, not `True`). -/
+def Builtin.names : Builtin → String × String × String
+  | .sigmaX => ("SigmaX", "SigmaX", "X")
+  | .sigmaY => ("SigmaY", "SigmaY", "Y")
+  | .sigmaZ => ("SigmaZ", "SigmaZ", "Z")
+  | .swap => ("SWAP", "SWAP", "S")
+  | .neighbour p c =>
+    ("NeighbourInteraction",
+     "NeighbourInteraction(periodic_bcs=" ++ p.pyFormat ++ ", c=" ++ distStr c ++ ")",
+     "(Z_i * Z_(i+" ++ distStr c ++ "))")
 
 /-- The importance-sampling interface of `NeuralStateBase` (neural_state.py:266-324):
 `numer vp v = importance_sampling_numerator(vp, v)`, `denom v = importance_sampling_denominator(v)`. -/
